@@ -92,3 +92,10 @@ const RecursiveDefaultsSpec = `{"openapi":"3.0.3","info":{"title":"t","version":
 "components":{"schemas":{
 "NodeA":{"type":"object","properties":{"next":{"$ref":"#/components/schemas/NodeA"},"v":{"type":"string"}}},
 "NodeB":{"type":"object","properties":{"next":{"$ref":"#/components/schemas/NodeB"},"v":{"type":"string"}}}}}}`
+
+// RecursiveOddities: recursive schemas in positions where a hand-written walk has to stop by itself:
+// allOf members that both give the same property a reference to the enclosing schema, and a
+// parameter whose schema is a oneOf containing a reference to itself.
+var RecursiveOddities = []string{`{"openapi":"3.0.3","info":{"title":"t","version":"1"},"paths":{"/a":{"post":{"operationId":"a","requestBody":{"content":{"application/json":{"schema":{"$ref":"#/components/schemas/P"}}}},"responses":{"200":{"description":"ok"}}}}},
+"components":{"schemas":{"P":{"allOf":[{"type":"object","properties":{"x":{"$ref":"#/components/schemas/P"}}},{"type":"object","properties":{"x":{"$ref":"#/components/schemas/P"}}}]}}}}`, `{"openapi":"3.0.3","info":{"title":"t","version":"1"},"paths":{"/a":{"get":{"operationId":"a","parameters":[{"name":"q","in":"query","schema":{"$ref":"#/components/schemas/Q"}}],"responses":{"200":{"description":"ok"}}}}},
+"components":{"schemas":{"Q":{"oneOf":[{"$ref":"#/components/schemas/Q"},{"type":"string"}]}}}}`}
